@@ -332,6 +332,12 @@ class Explorer:
                 new = self._simplify_call(new)
                 if not isinstance(new, ast.Call):
                     return new
+                if (dotted(new.func) or "").split(".")[-1] == "compress" and len(new.args) == 2 and not new.keywords and all(isinstance(a_, (ast.Tuple, ast.List)) and not any(isinstance(x, ast.Starred) for x in a_.elts) for a_ in new.args):
+                    # itertools.compress(<literal items>, <literal selectors>) with selectors that are decided on this path
+                    data, sel = new.args
+                    picks = [self.decide(x, st) for x in sel.elts]
+                    if all(v is not None for v in picks):
+                        return ast.Tuple(elts=[d_ for d_, v in zip(data.elts, picks) if v], ctx=ast.Load())
             if isinstance(new, ast.Call) and isinstance(new.func, ast.Name) and new.func.id == "len" and len(new.args) == 1 and not new.keywords:
                 a = new.args[0]
                 if isinstance(a, (ast.List, ast.Tuple, ast.Set)) and not any(isinstance(x, ast.Starred) for x in a.elts) and not isinstance(a, ast.Set):
@@ -498,7 +504,34 @@ class Explorer:
         return ast.Tuple(elts=vals, ctx=ast.Load())
 
     def _simplify_call(self, n: ast.Call) -> ast.AST:
-        """getattr(x, "name") -> x.name;  list(<literal>) / tuple(<literal>) -> literal"""
+        """getattr(x, "name") -> x.name;  list(<literal>) / tuple(<literal>) -> literal;  (lambda p: e)(a) -> e[p:=a]"""
+        if isinstance(n.func, ast.Lambda) and not any(isinstance(x, ast.Starred) for x in n.args) and not any(k.arg is None for k in n.keywords):
+            # a callback that was bound to a parameter and is called: beta reduction (arguments that contain calls
+            # are only substituted when the parameter is read once)
+            la = n.func.args
+            if not (la.vararg or la.kwarg or la.kwonlyargs or la.posonlyargs):
+                names = [p_.arg for p_ in la.args]
+                bind = dict(zip(names, n.args)) if len(n.args) <= len(names) else None
+                if bind is not None:
+                    for k in n.keywords:
+                        if k.arg in names and k.arg not in bind:
+                            bind[k.arg] = k.value
+                        else:
+                            bind = None
+                            break
+                if bind is not None:
+                    for p_, d_ in zip(names[len(names) - len(la.defaults) :], la.defaults):
+                        bind.setdefault(p_, d_)
+                    uses = {p_: sum(1 for y in ast.walk(n.func.body) if isinstance(y, ast.Name) and y.id == p_) for p_ in names}
+                    if all(p_ in bind for p_ in names) and not any(uses[p_] > 1 and any(isinstance(y, ast.Call) for y in ast.walk(bind[p_])) for p_ in names):
+
+                        class _S(ast.NodeTransformer):
+                            def visit_Name(self, m):
+                                if isinstance(m.ctx, ast.Load) and m.id in bind:
+                                    return copy.deepcopy(bind[m.id])
+                                return m
+
+                        return _S().visit(copy.deepcopy(n.func.body))
         if isinstance(n.func, ast.Name) and n.func.id == "getattr" and len(n.args) == 2 and not n.keywords and isinstance(n.args[1], ast.Constant) and isinstance(n.args[1].value, str) and n.args[1].value.isidentifier():
             return ast.Attribute(value=n.args[0], attr=n.args[1].value, ctx=ast.Load())
         if isinstance(n.func, ast.Name) and n.func.id == "dict" and all(k.arg is not None for k in n.keywords) and (not n.args or (len(n.args) == 1 and _const_dict(n.args[0]))):
@@ -848,7 +881,10 @@ class Explorer:
             targets = None
             if self.inline is not None and depth < self.max_depth:
                 try:
-                    funcs = self.prog.resolve_call(fi, c).funcs()
+                    tg_ = self.prog.resolve_call(fi, c)
+                    # a callee found only by method name over the class hierarchy (receiver type unknown, e.g.
+                    # `some_set.add(x)`) is not looked through
+                    funcs = tg_.funcs() if getattr(tg_, "precise", True) else []
                 except Exception:  # noqa: BLE001
                     funcs = []
                 if len(funcs) != 1 and isinstance(c.func, ast.Name) and c.func.id in st.store and isinstance(st.store[c.func.id], ast.Name):
@@ -938,7 +974,7 @@ class Explorer:
                     st.store[tmp] = ov
                     st.repl[id(c)] = tmp
                     continue
-            if targets is None or not self._bindable(c, targets):
+            if targets is None or not self._bindable(csub, targets):  # (the substituted call: a ** dictionary that is known on this path is already spread)
                 self._emit(st, "call", csub, None, c, fi, depth)
                 if self.exceptions and k.catches:
                     s2 = st.fork()
@@ -978,8 +1014,14 @@ class Explorer:
             return False  # interface stub
         if any(isinstance(x, ast.Starred) for x in call.args) or any(kw.arg is None for kw in call.keywords):
             return False
-        if a.vararg or a.kwarg:
+        if a.vararg:
             return False
+        if a.kwarg:
+            # surplus keywords are collected in a dictionary literal bound to the ** parameter
+            named = {x.arg for x in [*a.posonlyargs, *a.args, *a.kwonlyargs]}
+            if any(kw.arg is None for kw in call.keywords):
+                return False
+            _ = named
         if any(isinstance(n, (ast.Yield, ast.YieldFrom)) for n in ast.walk(callee.node)):
             return False  # generators are not inlined: their body runs lazily
         return True
@@ -1007,8 +1049,15 @@ class Explorer:
                 params = params[1:]
         for p, v in zip(params, args):
             binding[p] = v
+        named = {x.arg for x in [*a.posonlyargs, *a.args, *a.kwonlyargs]}
+        extra = []
         for kw in csub.keywords:
-            binding[kw.arg] = kw.value
+            if a.kwarg is not None and kw.arg is not None and kw.arg not in named:
+                extra.append(kw)
+            else:
+                binding[kw.arg] = kw.value
+        if a.kwarg is not None:
+            binding[a.kwarg.arg] = ast.Dict(keys=[ast.Constant(value=kw.arg) for kw in extra], values=[kw.value for kw in extra])
         # defaults
         pos = [x.arg for x in [*a.posonlyargs, *a.args]]
         for p, d in zip(pos[len(pos) - len(a.defaults) :], a.defaults):
@@ -1035,6 +1084,7 @@ class Explorer:
                 if k_.startswith(dv + "."):
                     st.store[p_ + k_[len(dv) :]] = val
         st.repl = {}
+        init_store = dict(st.store)  # (the state object itself is updated in place while the callee is explored)
         self._stack.append(fi)
         try:
             results = []
@@ -1058,7 +1108,7 @@ class Explorer:
             # attribute stores made by the callee on objects it was handed are visible to the caller afterwards
             for p_, dv in passed.items():
                 for k_, val in inner.items():
-                    if k_.startswith(p_ + ".") and (st.store.get(k_) is not val):
+                    if k_.startswith(p_ + ".") and (init_store.get(k_) is not val):
                         s.store[dv + k_[len(p_) :]] = val
             s.repl = dict(outer_repl)
             s.loops = st0.loops
